@@ -878,7 +878,32 @@ class MatrixOperator(Operator):
         -------
         adjoint : `MatrixOperator`
         """
-        return MatrixOperator(self.matrix.conj().T,
+        # Lazy import to improve `import odl` time
+        import scipy.sparse
+
+        adj_matrix = self.matrix.conj().T
+
+        # Account for the weightings: ``<Ax, y>_ran = <x, A^* y>_dom`` holds
+        # for ``A^* = W_dom^(-1) A^H W_ran``
+        dom_const = getattr(self.domain.weighting, 'const', None)
+        ran_const = getattr(self.range.weighting, 'const', None)
+        if dom_const is not None and ran_const is not None:
+            if dom_const != ran_const:
+                adj_matrix = adj_matrix * (ran_const / dom_const)
+        elif self.domain.ndim == 1 and self.range.ndim == 1:
+            dom_w = getattr(self.domain.weighting, 'array', dom_const)
+            ran_w = getattr(self.range.weighting, 'array', ran_const)
+            if dom_w is not None and ran_w is not None:
+                dom_w = np.broadcast_to(dom_w, (self.domain.size,))
+                ran_w = np.broadcast_to(ran_w, (self.range.size,))
+                if scipy.sparse.isspmatrix(adj_matrix):
+                    adj_matrix = (scipy.sparse.diags(1.0 / dom_w) *
+                                  adj_matrix * scipy.sparse.diags(ran_w))
+                else:
+                    adj_matrix = (adj_matrix * ran_w[None, :] /
+                                  dom_w[:, None])
+
+        return MatrixOperator(adj_matrix,
                               domain=self.range, range=self.domain,
                               axis=self.axis)
 
